@@ -61,6 +61,23 @@ async fn run_scenario(sc: Value, agent: String, acceptor: tokio_rustls::TlsAccep
         if twin {
             eph = prev_start.clone();
         }
+        // somebody edited the ephemeral instance by hand between two runs
+        if let Some(how) = run["tamper"].as_str() {
+            for (_, p) in eph.iter_mut() {
+                match how {
+                    "drop-reject" => p.reject = false,
+                    "drop-reject-and-add-filter" => {
+                        p.reject = false;
+                        if let Some(t) = p.terms.first_mut() {
+                            t.filters.push(("10.192.0.0/10".to_string(), "/10-/10".to_string()));
+                        }
+                    }
+                    "add-accept-all-term" => p.terms.push(Term { name: "all".into(), family: None, filters: vec![], accept: true }),
+                    _ => {}
+                }
+            }
+            emit(&mut out, json!({"ev": "tamper", "how": how, "eph": eph_to_json(&eph), "den": den_map(eph_filters(&eph))}));
+        }
         prev_start = eph.clone();
         let flags: Vec<String> = run["style"].as_array().map(|a| a.iter().filter_map(|x| x.as_str().map(String::from)).collect()).unwrap_or_default();
         let style = if run["style"].is_array() { Some(vh::xmlgen::Style::from_flags(&flags)) } else { None };
@@ -118,6 +135,106 @@ async fn run_scenario(sc: Value, agent: String, acceptor: tokio_rustls::TlsAccep
     out
 }
 
+/// Daemon mode: ONE agent process (`-f <period>`) runs the job several times against the same router
+/// and IRRd; before chosen runs the router "reboots" (its ephemeral instance is empty again).  Every
+/// NETCONF session of the agent is one run; its outcome is inferred from what the router saw.
+async fn run_daemon_scenario(sc: Value, agent: String, acceptor: tokio_rustls::TlsAcceptor) -> Vec<Value> {
+    let case = sc["case"].as_str().unwrap_or("?").to_string();
+    let inst = sc["instance"].as_str().unwrap_or("bgpfu").to_string();
+    let d = &sc["daemon"];
+    let period = d["period"].as_u64().unwrap_or(1);
+    let nsess = d["sessions"].as_u64().unwrap_or(3) as usize;
+    let reset_before: Vec<usize> = d["reset_before"].as_array().map(|a| a.iter().filter_map(|x| x.as_u64().map(|n| n as usize)).collect()).unwrap_or_default();
+    let run = &sc["runs"][0];
+    let eph0 = eph_from_json(&sc["eph0"]);
+    let mut out: Vec<Value> = Vec::new();
+    let mut seq = 0usize;
+    let mut emit = |out: &mut Vec<Value>, mut v: Value| {
+        seq += 1;
+        v["case"] = json!(case);
+        v["seq"] = json!(seq);
+        out.push(v);
+    };
+    emit(&mut out, json!({"ev": "reset", "instance": inst, "meta": sc["meta"].clone()}));
+    let irrd = start_irrd(IrrDb::from_json(&run["irr"]), "ok");
+    let junos = start_junos(run["running"].clone(), eph0.clone(), vec![], acceptor.clone(), case.clone(), None).await;
+    let mut cmd = tokio::process::Command::new(&agent);
+    cmd.args(["-f", &period.to_string(), "--irrd-host", "127.0.0.1", "--irrd-port", &irrd.addr.port().to_string(), "--ephemeral-db", &inst,
+              "remote", "--netconf-host", "127.0.0.1", "--netconf-port", &junos.addr.port().to_string(),
+              "--ca-cert-path", &pki("ca.crt"), "--client-cert-path", &pki("client.crt"), "--client-key-path", &pki("client.key"),
+              "--tls-server-name", "localhost"])
+        .stdin(Stdio::null())
+        .stdout(Stdio::null())
+        .stderr(Stdio::piped())
+        .kill_on_drop(true);
+    let mut child = cmd.spawn().expect("spawn agent");
+    let ended = |g: &JunosState| g.log.iter().filter(|e| e["ev"] == "session_end").count();
+    // eph_before[j], eph_after[j] for session j (1-based)
+    let mut eph_before: Vec<Eph> = vec![eph0.clone()];
+    let mut eph_after: Vec<Eph> = Vec::new();
+    let deadline = std::time::Instant::now() + Duration::from_secs(period * nsess as u64 + 20);
+    while eph_after.len() < nsess && std::time::Instant::now() < deadline {
+        tokio::time::sleep(Duration::from_millis(15)).await;
+        let mut g = junos.state.lock().unwrap();
+        if ended(&g) > eph_after.len() {
+            eph_after.push(g.eph.clone());
+            if reset_before.contains(&(eph_after.len() + 1)) {
+                g.eph = Eph::default();      // the router rebooted: ephemeral data is gone
+            }
+            eph_before.push(g.eph.clone());
+        }
+    }
+    // stop the daemon
+    if let Some(pid) = child.id() {
+        unsafe { libc_kill(pid as i32, 15) };
+    }
+    let res = tokio::time::timeout(Duration::from_secs(10), child.wait_with_output()).await;
+    let (code, stderr) = match res {
+        Ok(Ok(o)) => (o.status.code().unwrap_or(-1), String::from_utf8_lossy(&o.stderr).to_string()),
+        _ => (-3, String::new()),
+    };
+    if let Ok(dir) = std::env::var("VERIF_KEEP_STDERR") {
+        let _ = std::fs::write(format!("{dir}/{case}-daemon.stderr"), &stderr);
+    }
+    let log = junos.state.lock().unwrap().log.clone();
+    for j in 1..=eph_after.len() {
+        if reset_before.contains(&j) {
+            emit(&mut out, json!({"ev": "reboot", "run": j}));
+        }
+        let before = &eph_before[j - 1];
+        emit(&mut out, json!({"ev": "run_start", "run": j, "running": run["running"], "eph": eph_to_json(before),
+                              "den": den_map(eph_filters(before)), "repeat": false, "expect": run["expect"], "irr_mode": "ok",
+                              "faults": [], "twin": false, "style": "", "daemon": true}));
+        let mut committed = false;
+        let mut closed = false;
+        for e in log.iter().filter(|e| e["session"] == json!(j)) {
+            let mut e = e.clone();
+            if e["ev"] == "req" && e["kind"] == "commit" && e["committed"] == json!(true) {
+                committed = true;
+            }
+            if e["ev"] == "req" && e["kind"] == "close-session" {
+                closed = true;
+            }
+            e["run"] = json!(j);
+            e.as_object_mut().unwrap().remove("seq");
+            emit(&mut out, e);
+        }
+        // the outcome of a run in daemon mode is internal to the process: inferred from the router's view
+        emit(&mut out, json!({"ev": "exit", "run": j, "code": if committed && closed { 0 } else { 1 }, "inferred": true, "timed_out": false,
+                              "panicked": false, "panic_at": "", "wall_ms": 0, "stderr_error": "", "stderr_tail": ""}));
+        let after = &eph_after[j - 1];
+        emit(&mut out, json!({"ev": "run_end", "run": j, "eph": eph_to_json(after), "den": den_map(eph_filters(after))}));
+    }
+    emit(&mut out, json!({"ev": "daemon_end", "sessions_seen": eph_after.len(), "sessions_wanted": nsess, "exit_code": code,
+                          "panic_at": stderr.lines().find(|l| l.contains("panicked at")).map(|l| l.chars().filter(|c| !c.is_control()).take(200).collect::<String>()).unwrap_or_default()}));
+    out
+}
+
+extern "C" {
+    #[link_name = "kill"]
+    fn libc_kill(pid: i32, sig: i32) -> i32;
+}
+
 fn main() {
     let args: Vec<String> = std::env::args().collect();
     match args.get(1).map(String::as_str) {
@@ -141,7 +258,7 @@ fn main() {
                     let permit = sem.clone().acquire_owned().await.unwrap();
                     let (agent, acceptor) = (agent.clone(), acceptor.clone());
                     handles.push_back(tokio::spawn(async move {
-                        let r = run_scenario(sc, agent, acceptor).await;
+                        let r = if sc["daemon"].is_object() { run_daemon_scenario(sc, agent, acceptor).await } else { run_scenario(sc, agent, acceptor).await };
                         drop(permit);
                         r
                     }));
